@@ -25,9 +25,8 @@ def _should_set_millisecond(cr, marking_type):
             return True
         else:
             return False
-    if cr.precision == 'millisecond':
-        return True
-    return False
+    # datetime objects are written like every other STIX 2.0 timestamp
+    return True
 
 
 class ExternalReference(_STIXBase20):
@@ -137,12 +136,12 @@ class MarkingDefinition(_STIXBase20, _MarkingsMixin):
             except KeyError:
                 raise ValueError("definition_type must be a valid marking type")
 
-            if 'created' in kwargs:
-                if _should_set_millisecond(kwargs['created'], marking_type):
-                    self._properties = copy.deepcopy(self._properties)
-                    self._properties.update([
-                        ('created', TimestampProperty(default=lambda: NOW, precision='millisecond')),
-                    ])
+            created = kwargs.get('created')
+            if created is None or _should_set_millisecond(created, marking_type):
+                self._properties = copy.deepcopy(self._properties)
+                self._properties.update([
+                    ('created', TimestampProperty(default=lambda: NOW, precision='millisecond')),
+                ])
 
             if not isinstance(kwargs['definition'], marking_type):
                 defn = _get_dict(kwargs['definition'])
